@@ -10,6 +10,7 @@ LEVEL_TEXT = ("Static panic/divergence audit over the MIR of lib + cli: every as
               "structurally (E1.b); every loop must make progress (E1.c).  A pass means 'no undischarged panic site / "
               "unbounded recursion / non-progressing loop other than the listed known findings', relative to the trusted "
               "justifications listed in trusted_base; it does not mean that executions were observed.")
+LEVEL_TEXT += (" The premise of the RefCell discharge for lazy thunks (C04.M: a scoped definition stores a memoising store thunk) is re-checked here.  E1.b/E1.c run on the extracted bodies as written; E1.a runs on the view with new helper functions inlined, so a helper's content still discharges its caller's sites.")
 
 # floors: instance counts confirmed by hand on the pinned tree (after the fix: commits)
 FLOOR_SITES = 190
